@@ -481,6 +481,70 @@ def finalSymTab (ss : List Stmt) : SymTab → Outcome SymTab
        | v => .ok ((k, v) :: r))
     | o => o
 
+/-- one element of an FCB / FDB list that is a symbol or an expression (fix: such elements used to be rejected):
+`resolve` against the label table, a label or label expression is replaced by its value on the final addresses, the
+result is rendered at the width of the directive; anything that has no value of that width is a TranslationError -/
+def evalElem (ss : List Stmt) (t : SymTab) (w : Nat) (x : Str) : Outcome Str :=
+  match create 4 x false false true with
+  | .error _ => .diag
+  | .ok v =>
+    match v.resolve t with
+    | .error _ => .diag
+    | .ok r =>
+      let num : Outcome Value :=
+        if r.isAddress then (match r.int? with
+                             | some j => (match addrOf ss j with | some a => .ok a | none => .internal)
+                             | none => .internal)
+        else if r.isAddrExpr then addrOffset ss r
+        else .ok r
+      match num with
+      | .ok (.numeric n _ _ neg) =>
+        (match fitNum n neg w with
+         | .ok f => (match f.hex? with | some h => .ok h | none => .internal)
+         | .error _ => .diag)
+      | .ok _ => .diag
+      | .diag => .diag
+      | .internal => .internal
+      | .diverged => .diverged
+
+/-- the elements of a list operand: literals keep the digits they were given at parse time (`hs`), the others are evaluated -/
+def evalElems (ss : List Stmt) (t : SymTab) (w : Nat) : List Str → List Str → Outcome (List Str)
+  | x :: xs, h :: hs =>
+    let cur : Outcome Str := if pendingElem x && (elemHex w x matches .error _) then evalElem ss t w x else .ok h
+    (match cur with
+     | .ok h' => (match evalElems ss t w xs hs with | .ok r => .ok (h' :: r) | o => o)
+     | .diag => .diag
+     | .internal => .internal
+     | .diverged => .diverged)
+  | _, _ => .ok []
+
+/-- `MultiByteValue.resolve` + `fix_addresses` for every FCB / FDB list statement, after `fix_addresses` of the program -/
+def evalLists (t : SymTab) (ss : List Stmt) : List Stmt → Outcome (List Stmt)
+  | [] => .ok []
+  | s :: rest =>
+    let cur : Outcome Stmt :=
+      match s.pkg.additional with
+      | .multiByte hs =>
+        (match evalElems ss t 2 (listElems s.operand.text) hs with
+         | .ok hs' => .ok { s with pkg := { s.pkg with additional := .multiByte hs' } }
+         | .diag => .diag | .internal => .internal | .diverged => .diverged)
+      | .multiWord hs =>
+        (match evalElems ss t 4 (listElems s.operand.text) hs with
+         | .ok hs' => .ok { s with pkg := { s.pkg with additional := .multiWord hs' } }
+         | .diag => .diag | .internal => .internal | .diverged => .diverged)
+      | _ => .ok s
+    match cur with
+    | .ok s' => (match evalLists t ss rest with | .ok r => .ok (s' :: r) | o => o)
+    | .diag => .diag
+    | .internal => .internal
+    | .diverged => .diverged
+
+/-- `fix_addresses; fit_operand_width` over all statements, then the elements of the FCB / FDB lists -/
+def fixAllL (t : SymTab) (ss4 : List Stmt) : Outcome (List Stmt) :=
+  match fixAll ss4 0 ss4 with
+  | .ok ss5a => evalLists t ss5a ss5a
+  | o => o
+
 /-- the pass over the symbol table before the addresses are filled in (fixes 0f280be, d7356d4): an EQU defined by an
 expression is replaced by its value — an expression of constants by `resolve`, a label expression by
 `calculate_address_offset` on the final addresses; one that cannot be evaluated is a TranslationError. Every entry is
@@ -523,7 +587,7 @@ def assemble (fs : Files) (lines : List Str) : Outcome Assembly :=
               if !orgOK ss3 false then .diag else                -- "ORG must come before the first label and the first byte"
               match assignAddrs ss3 0 with
               | .ok ss4 =>
-                match fixAll ss4 0 ss4 with
+                match fixAllL t ss4 with
                 | .ok ss5 =>
                   match evalSyms ss5 t t with
                   | .ok t1 =>
